@@ -78,8 +78,13 @@ def gen_program(rng, cfg):
     cons = []
     lbx = [round(v - gen.r2(rng, 0.5, 3), 2) for v in x0]
     ubx = [round(v + gen.r2(rng, 0.5, 3), 2) for v in x0]
-    cons.append(['>=', ['v', 'x'], ['c', lbx]])
-    cons.append(['<=', ['v', 'x'], ['c', ubx]])
+    if cls in ('LP', 'SOCP', 'EXP') and rng.random() < cfg.get('p_bounds_as_rows', 0.3):
+        # every restriction is a row: the compiled program has no finite variable bound at all
+        cons.append(['>=', ['*', ['c', 1.0], ['v', 'x']], ['c', lbx]])
+        cons.append(['<=', ['*', ['c', 1.0], ['v', 'x']], ['c', ubx]])
+    else:
+        cons.append(['>=', ['v', 'x'], ['c', lbx]])
+        cons.append(['<=', ['v', 'x'], ['c', ubx]])
     groups = [('x', n)]
     if cls in ('MILP', 'MISOCP'):
         ki = rng.randint(0, 3)
